@@ -198,7 +198,6 @@ func runCheck(prop, rulesF, tier, repo, verif, tags, goarch string, overlay map[
 	if tier == "thorough" && tags == "" && goarch == "" {
 		cfgs = append(cfgs,
 			LoadConfig{Repo: repo, Tags: "verif", Overlay: overlay},
-			LoadConfig{Repo: repo, GOARCH: "386", Overlay: overlay},
 			LoadConfig{Repo: repo, GOARCH: "arm64", Overlay: overlay},
 			LoadConfig{Repo: repo, Tests: true, Overlay: overlay},
 		)
@@ -310,8 +309,36 @@ func runCheck(prop, rulesF, tier, repo, verif, tags, goarch string, overlay map[
 		os.WriteFile(jsonOut, b, 0o644)
 	}
 
+	var st map[string]any
+	if tier == "thorough" && spec != nil && rulesF == "" && len(overlay) == 0 {
+		if seeds, err := loadSeeds(filepath.Join(verif, "selftest", "seeds.json")); err == nil {
+			only := map[string]bool{}
+			for _, rl := range spec.Rules {
+				only[rl] = true
+			}
+			res := runSeeds(seeds, repo, only)
+			counts := map[string]int{}
+			var blind, detected []string
+			for _, sr := range res {
+				if sr.Status == "skipped" && strings.HasPrefix(sr.Detail, "no rule") {
+					continue
+				}
+				counts[sr.Status]++
+				switch sr.Status {
+				case "BLIND", "FALSE-ALARM", "invalid":
+					blind = append(blind, sr.ID+": "+sr.Status+" "+sr.Detail)
+					fmt.Printf("SELFTEST-%s seed=%s rules=%s %s\n", sr.Status, sr.ID, sr.Rules, sr.Detail)
+				case "detected", "silent":
+					detected = append(detected, sr.ID)
+				}
+			}
+			st = map[string]any{"counts": counts, "detected_or_silent": detected, "blind_or_invalid": blind,
+				"note": "seeded source mutants applied through go/packages overlays; each must make the named rule fail on the named construct (benign seeds must stay silent). Measures the checker, never produces a VIOLATION."}
+			fmt.Printf("selftest: %v\n", counts)
+		}
+	}
 	if writeEvidence && spec != nil && rulesF == "" {
-		writeEvidenceFile(verif, spec, tier, obls, results, funcs, nOK, nViol, len(knownHit), time.Since(t0).Seconds())
+		writeEvidenceFile(verif, spec, tier, obls, results, funcs, nOK, nViol, len(knownHit), time.Since(t0).Seconds(), st)
 	}
 
 	fmt.Printf("atreelint property=%s tier=%s rules=%s obligations=%d discharged=%d known=%d failing=%d configs=%d wall=%.1fs\n",
@@ -358,7 +385,7 @@ func doReplay(path string, obls []*Obligation) int {
 	return 0
 }
 
-func writeEvidenceFile(verif string, spec *PropSpec, tier string, obls []*Obligation, results []configResult, funcs, nOK, nViol, nKnown int, wall float64) {
+func writeEvidenceFile(verif string, spec *PropSpec, tier string, obls []*Obligation, results []configResult, funcs, nOK, nViol, nKnown int, wall float64, selftest map[string]any) {
 	ruleInst := map[string]int{}
 	distinct := map[string]bool{}
 	for _, o := range obls {
@@ -428,6 +455,9 @@ func writeEvidenceFile(verif string, spec *PropSpec, tier string, obls []*Obliga
 		},
 		"wall_s":     wall,
 		"violations": nViol,
+	}
+	if selftest != nil {
+		ev["coverage"].(map[string]any)["selftest"] = selftest
 	}
 	dir := filepath.Join(verif, "evidence")
 	os.MkdirAll(dir, 0o755)
